@@ -81,6 +81,11 @@ pub struct NetState {
 }
 
 impl NetState {
+    /// Server-side stream handles (clones included) that have not been dropped.
+    pub fn open_server_handles(&self) -> usize {
+        self.conns.iter().map(|c| c.server_handles).sum()
+    }
+
     pub fn accept_ready(&self, l: Obj) -> bool {
         !self.listeners[l].backlog.is_empty()
     }
